@@ -53,6 +53,10 @@ type histCase struct {
 	CSeed int64   `json:"cseed"`           // concretisation of the values
 	RSeed int64   `json:"rseed"`           // rendering
 	Crypt string  `json:"crypt,omitempty"` // "", "none" or one of cryptNames
+	// Pad > 0: the "many numbers" family - object numbers 1..Pad are in use
+	// (tiny fillers), the model objects are spread over them, updates are
+	// cross-reference streams with a short /Index or hybrids
+	Pad int `json:"pad,omitempty"`
 }
 
 func runHist(c histCase) (histRecord, *ser.Result, error) {
@@ -65,7 +69,7 @@ func buildHist(c histCase) (*built, error) {
 	if err != nil {
 		return nil, err
 	}
-	return concretise(c.H, rand.New(rand.NewSource(c.CSeed)), cs), nil
+	return concretise(c.H, rand.New(rand.NewSource(c.CSeed)), cs, c.Pad), nil
 }
 
 func runHistB(c histCase) (histRecord, *ser.Result, *built, error) {
@@ -77,6 +81,23 @@ func runHistB(c histCase) (histRecord, *ser.Result, *built, error) {
 	// where /Length is right (the marker is only recommended)
 	ch := ser.PickChoices(c.RSeed)
 	ch.EndstreamNoEOL = (c.RSeed/7)%4 == 0
+	if c.Pad > 0 {
+		// short /Index and subsections (not one run over all numbers)
+		if ch.Index == 0 {
+			ch.Index = 1 + int(c.RSeed%2)
+		}
+		if ch.Subsections == 0 {
+			ch.Subsections = 1 + int(c.RSeed%2)
+		}
+		// go-pdf caps the number of entries a cross-reference stream may
+		// declare by its raw length (8192 + 32 per byte, a documented
+		// resource guard): a stream listing every number is written without
+		// compression so that the cap does not apply to the original file
+		if c.H[0].K == "stream" && ch.XRefFilter != 0 && ch.XRefFilter != 4 {
+			ch.XRefFilter = []int{0, 4}[c.RSeed%2]
+		}
+		ch.Syntax.Comments = 0 // keep the large files small
+	}
 	opt := &ser.Options{Seed: c.RSeed, Choices: &ch}
 	if b.crypt != nil {
 		opt.Encrypt = b.crypt.encrypt
@@ -144,6 +165,9 @@ func histKey(rec histRecord, res *ser.Result, b *built, expect func(n, g int) in
 		return "xref-table/subsection-starts-at-1/first-entry-free-65535-next-0/taken-for-misnumbered-table"
 	}
 	if !rec.Open {
+		if b.pad > 0 {
+			return "open-error/many-object-numbers/newest=" + rec.H[len(rec.H)-1].K
+		}
 		return "open-error/newest=" + rec.H[len(rec.H)-1].K
 	}
 	for _, p := range rec.Probes {
@@ -301,6 +325,22 @@ func run(ctx *core.Ctx) error {
 		jobs = append(jobs, job{c: histCase{Kind: "hist", H: h, CSeed: rng.Int63(), RSeed: rng.Int63(), Crypt: cryptNames[i%len(cryptNames)]}})
 		i++
 	}
+	// the "many numbers" family: an original file with thousands of object
+	// numbers, updated by cross-reference streams with a short /Index (the
+	// highest number included) and by hybrid sections
+	nmany := 0
+	for rep := 0; rep < ctx.Pick(5, 40); rep++ {
+		for _, pad := range []int{8000, 8600, 9999, 20000} {
+			h := manyHistory(rng)
+			c := histCase{Kind: "hist", H: h, CSeed: rng.Int63(), RSeed: rng.Int63(), Pad: pad}
+			if rep%4 == 3 {
+				c.Crypt = cryptNames[rng.Intn(len(cryptNames))]
+			}
+			jobs = append(jobs, job{c: c})
+			nmany++
+		}
+	}
+	ctx.Ev.Set("many_numbers_histories", nmany)
 	st := &histStats{seenKey: map[string]int{}}
 	if err := processJobs(ctx, jobs, st); err != nil {
 		return err
@@ -452,7 +492,7 @@ func processJobs(ctx *core.Ctx, jobs []job, st *histStats) error {
 			mu.Unlock()
 			return
 		}
-		if i%997 == 0 {
+		if i%997 == 0 && jobs[i].c.Pad == 0 {
 			mu.Lock()
 			if len(st.fileRecs) < ctx.Pick(40, 120) {
 				st.fileRecs = append(st.fileRecs, map[string]any{"t": "file", "file": strict.ToJSON(f)})
@@ -526,7 +566,7 @@ func checkStrictValues(f *strict.File, h history, b *built) error {
 	for n := 1; n <= h.nObj(); n++ {
 		for _, g := range []int{0, 1, 2} {
 			want := exp(n, g)
-			v, ok, err := strictValue(f, obj.Ref{Num: uint32(n), Gen: uint16(g)})
+			v, ok, err := strictValue(f, obj.Ref{Num: b.numOf(n), Gen: uint16(g)})
 			if err != nil {
 				return fmt.Errorf("object %d %d: %v", n, g, err)
 			}
